@@ -14,7 +14,10 @@ def applyTok (cfg : Cfg) (s : St) (tok : String) : St × String :=
       | none => (s, "bad")
       | some h =>
         let idl := idle s
-        if obs == "b" then
+        if obs == "x" then
+          -- the dial failed: only possible when nothing is idle and there is room; nothing changes
+          if idl.isEmpty && s.live.length < cfg.max && !s.closed then (s, "dial-failed") else (s, "mismatch:should-not-dial")
+        else if obs == "b" then
           -- the implementation blocked: the model must have no idle resource and be at its maximum
           if idl.isEmpty && !(s.live.length < cfg.max) || s.closed then (s, "blocked") else (s, "mismatch:should-not-block")
         else
